@@ -1,3 +1,3 @@
 #!/bin/sh
 # replays this counterexample against the real build
-cd /tmp/seedonly_C01d_25564 && VERIF_SCRIPT=/verif/replays/C01/VHarnessStorageLists_0d0656da_0/script.json VERIF_RAW_SALT=0 GOFLAGS=-mod=mod GOPROXY=off go test -vet=off -count=1 -overlay /verif/replays/C01/VHarnessStorageLists_0d0656da_0/overlay.json -run ^TestVerifReplay_VHarnessStorageLists$ -v ./mint/storage/sqlite
+cd /tmp/seedrepo_C01d && VERIF_SCRIPT=/verif/replays/C01/VHarnessStorageLists_0d0656da_0/script.json VERIF_RAW_SALT=0 GOFLAGS=-mod=mod GOPROXY=off go test -vet=off -count=1 -overlay /verif/replays/C01/VHarnessStorageLists_0d0656da_0/overlay.json -run ^TestVerifReplay_VHarnessStorageLists$ -v ./mint/storage/sqlite
